@@ -974,7 +974,7 @@ func (f *FuncCtx) loopCommon(label string, env *Env, fl *flow, nodes []ast.Node,
 		}
 	}
 	for k, v := range head.names {
-		if strings.HasPrefix(k, "$g:") {
+		if strings.HasPrefix(k, "$g:") && f.loopAssignsGhost(nodes, strings.TrimPrefix(k, "$g:"), env) {
 			head.names[k] = f.freshVal(v.Typ, strings.TrimPrefix(k, "$g:"))
 		}
 	}
@@ -1033,6 +1033,29 @@ func (f *FuncCtx) loopCommon(label string, env *Env, fl *flow, nodes []ast.Node,
 
 func hasKey(m map[int][]Clause, k int) bool { _, ok := m[k]; return ok }
 
+// loopAssignsGhost: can the loop body reach a call whose ghostcall clause assigns the ghost variable g?
+// (ghost state only changes at such calls, so other loops leave it alone)
+func (f *FuncCtx) loopAssignsGhost(nodes []ast.Node, g string, env *Env) bool {
+	if f.C == nil {
+		return true
+	}
+	for callee, cls := range f.C.GhostCall {
+		for _, cl := range cls {
+			lhs := cl.Text
+			if i := strings.Index(lhs, "="); i >= 0 {
+				lhs = lhs[:i]
+			}
+			if i := strings.Index(lhs, "["); i >= 0 {
+				lhs = lhs[:i]
+			}
+			if strings.TrimSpace(lhs) == g && f.loopCalls(nodes, callee, env) {
+				return true
+			}
+		}
+	}
+	return false
+}
+
 // loopCalls: does the loop body syntactically contain a call whose callee text is name?
 func (f *FuncCtx) loopCalls(nodes []ast.Node, name string, env *Env) bool {
 	found := false
@@ -1053,6 +1076,10 @@ func (f *FuncCtx) loopCalls(nodes []ast.Node, name string, env *Env) bool {
 						found = found || f.closureMayCall(id, name, env)
 					}
 				}
+				// same-package callees that are expanded in place (no contract, or marked inline) may reach it too
+				if fn := f.staticCallee(c); fn != nil && !found {
+					found = f.inlinedMayCall(fn, name, env)
+				}
 			case *ast.SendStmt:
 				if "send "+exprStr(c.Chan) == name {
 					found = true
@@ -1070,6 +1097,44 @@ func (f *FuncCtx) loopCalls(nodes []ast.Node, name string, env *Env) bool {
 		})
 	}
 	return found
+}
+
+// staticCallee returns the declared function or method a call statically resolves to (nil otherwise).
+func (f *FuncCtx) staticCallee(c *ast.CallExpr) *types.Func {
+	switch fun := ast.Unparen(c.Fun).(type) {
+	case *ast.Ident:
+		fn, _ := f.info().ObjectOf(fun).(*types.Func)
+		return fn
+	case *ast.SelectorExpr:
+		if sel, ok := f.info().Selections[fun]; ok {
+			fn, _ := sel.Obj().(*types.Func)
+			return fn
+		}
+		fn, _ := f.info().ObjectOf(fun.Sel).(*types.Func)
+		return fn
+	}
+	return nil
+}
+
+func (f *FuncCtx) inlinedMayCall(fn *types.Func, name string, env *Env) bool {
+	fn = fn.Origin()
+	_, c := f.E.contractFor(fn, f.Pkg)
+	if c != nil && !c.Inline {
+		return false // called through its contract: its internal calls are not events of this function
+	}
+	decl := f.E.declOf(fn)
+	if decl == nil || decl.Body == nil || f.E.pkgOf(fn) != f.Pkg {
+		return false
+	}
+	if f.mayCallBusy == nil {
+		f.mayCallBusy = map[types.Object]bool{}
+	}
+	if f.mayCallBusy[fn] {
+		return false
+	}
+	f.mayCallBusy[fn] = true
+	defer delete(f.mayCallBusy, fn)
+	return f.loopCalls([]ast.Node{decl.Body}, name, env)
 }
 
 func (f *FuncCtx) closureMayCall(id *ast.Ident, name string, env *Env) bool {
@@ -1211,6 +1276,13 @@ func (f *FuncCtx) rangeStmt(s *ast.RangeStmt, env *Env, fl *flow, label string) 
 		bind := func(e *Env) {
 			k := idx(e)
 			v := Val{T: at(k.T), Typ: elemT}
+			if _, basic := elemT.Underlying().(*types.Basic); !basic && f.spec == nil {
+				// the element bound by range is a value of the element type
+				v = f.name(v, "elem")
+				for _, a := range f.typeInv(v.T, elemT, 0) {
+					f.assume(e, a)
+				}
+			}
 			setKV(e, &k, &v)
 		}
 		return f.loopCommon(label, env, fl, nodes, s.Body.Lbrace, ghost, implicit, cond, bind, s.Body, post)
